@@ -145,9 +145,11 @@ def handle (st : St) : Toks → IO St
   | "ior" :: d :: kind :: v :: rest => do
     match optF d, readF v, readItems rest with
     | some d, some v, some (s, []) =>
-      -- index_of_refraction: energy= is first converted to a wavelength, which xray_sld converts back
+      -- index_of_refraction: the wavelength is computed from energy=, the scattering factors are looked up
+      -- at the energy given (at the converted wavelength's energy for wavelength=)
       let w := if kind = "e" then xrayWavelength v else v
-      match xraySld st.am (st.sf (xrayEnergy w)) s.atoms d with
+      let e := if kind = "e" then v else xrayEnergy w
+      match xraySld st.am (st.sf e) s.atoms d with
       | .ok sld =>
         match indexOfRefraction w sld with
         | some (re, im) => reply s!"ok {showF re} {showF im}"
@@ -159,7 +161,8 @@ def handle (st : St) : Toks → IO St
     match optF d, readF v, readF ang, readF rough, readItems rest with
     | some d, some v, some ang, some rough, some (s, []) =>
       let w := if kind = "e" then xrayWavelength v else v
-      match xraySld st.am (st.sf (xrayEnergy w)) s.atoms d with
+      let e := if kind = "e" then v else xrayEnergy w
+      match xraySld st.am (st.sf e) s.atoms d with
       | .ok sld => reply ("ok " ++ showO (mirrorReflectivity csqrtF w ang rough (indexOfRefraction w sld)))
       | .error err => reply (showErr err)
     | _, _, _, _, _ => reply "ERR bad-op"
